@@ -125,7 +125,14 @@ def _case(arg) -> Dict[str, Any]:
     if seed % 4 == 1:
         # correlation ids are per-process counters: the same ids occur in every rank; some linked host calls are not launch calls of the selected kinds
         kw.update(distinct_corr_per_rank=False, p_other_launch=0.4)
+    if seed % 4 == 2:
+        kw["p_frac_kernel_dur"] = 0.6  # device activities lasting a fractional number of microseconds (whole-number timestamps, so the loader does not round the file)
     per_rank = gen.gen_trace_set(seed, n_ranks=nr, **kw)
+    if seed % 4 == 2:
+        for evs in per_rank.values():  # ... and launch calls lasting 2.5 / 0.75 us
+            for e in evs:
+                if e.get("cat") == "cuda_runtime" and isinstance(e.get("dur"), int) and e["dur"] >= 5 and (e["ts"] // 5) % 2 == 0:
+                    e["dur"] = e["dur"] - 2.5
     if seed % 3 == 0:  # memset launches too
         for evs in per_rank.values():
             for e in evs:
@@ -150,14 +157,20 @@ def _case(arg) -> Dict[str, Any]:
             if rk not in out:
                 continue
             df = ta.t.get_trace(rk)  # loaded (trimmed, shifted) events: the statistics are about these
-            rows = [(int(s), stab[int(nm)], int(c), int(ts), int(du)) for s, nm, c, ts, du in zip(df["stream"], df["name"], df["correlation"], df["ts"], df["dur"])]
+            # durations are those of the FILE's events (row id = position in the file): a loader that alters them is visible here
+            file_dur = {i: e["dur"] for i, e in gen.complete_events(per_rank[rk])}
+
+            def num(x):
+                return int(x) if float(x) == int(x) else float(x)  # quarter fractions are exact in binary
+
+            rows = [(int(s), stab[int(nm)], int(c), int(ts), num(file_dur.get(int(i), du))) for i, s, nm, c, ts, du in zip(df["index"], df["stream"], df["name"], df["correlation"], df["ts"], df["dur"])]
             exp = []
             for s, nm, c, ts, du in rows:
                 if s == -1 and nm in kinds:
                     for s2, nm2, c2, ts2, du2 in rows:
                         if s2 != -1 and c2 == c:
                             exp.append((c, du, du2, max(0, ts2 - ts - du)))
-            got = sorted((int(a), int(b), int(c_), int(d_)) for a, b, c_, d_ in zip(out[rk]["correlation"], out[rk]["cpu_duration"], out[rk]["gpu_duration"], out[rk]["launch_delay"]))
+            got = sorted((int(a), num(b), num(c_), num(d_)) for a, b, c_, d_ in zip(out[rk]["correlation"], out[rk]["cpu_duration"], out[rk]["gpu_duration"], out[rk]["launch_delay"]))
             n += 1
             if got != sorted(exp):
                 fails.append({"what": "rows_match_pairs", "input": inp, "observed": {"rank": rk, "rows": got[:8], "n": len(got)}, "expected": {"rows": sorted(exp)[:8], "n": len(exp)}})
